@@ -81,7 +81,7 @@ pub fn run(ctx: &Ctx, out: &mut Out, prop: &str) {
         crate::c09::replay_history(out, prop, r);
         return;
     }
-    let nseq = if c20 { ctx.share(160, 2_000) } else { ctx.share(3_600, 48_000) };
+    let nseq = if c20 { ctx.share(160, 2_000) } else { ctx.share(2_400, 48_000) };
     let before = log_counts();
     for i in 0..nseq {
         let gi = i * ctx.nshards + ctx.shard;
@@ -92,9 +92,13 @@ pub fn run(ctx: &Ctx, out: &mut Out, prop: &str) {
         cfg.fault_percentage = if rng.chance(1, 2) { *rng.pick(&[0u8, 1, 25, 50]) } else { rng.range(0, 50) as u8 };
         // optional features on a share of the servers: per-client statistics with a fast status
         // timer, and a health-check listener (never connected to here)
-        if gi % 8 == 3 {
+        let stats_server = gi % 16 == 3;
+        if stats_server {
             cfg.client_stats = true;
             cfg.status_interval = std::time::Duration::from_secs(1);
+            // as small as the real binary's queue for one worker; nobody drains it here, so the
+            // worker's own status timer (every 100 ms) meets a full queue after two ticks
+            cfg.queue_cap = 2;
             out.obs("servers_with_client_stats", 1);
         }
         if gi % 8 == 6 {
@@ -108,7 +112,7 @@ pub fn run(ctx: &Ctx, out: &mut Out, prop: &str) {
         let srv = d.srv_value.clone();
         let nd = needles("seed", &seed).into_iter().chain(needles("scalar", &clamped_scalar(&seed))).collect::<Vec<_>>();
         // several sequences on the same server (it must keep working)
-        let nrounds = if c20 { 6 } else { rng.range(1, 4) as usize };
+        let nrounds = if c20 { 6 } else if stats_server { 6 } else { rng.range(1, 4) as usize };
         let mut rounds: Vec<Vec<(usize, Vec<u8>)>> = Vec::new();
         let mut alive = true;
         for _ in 0..nrounds {
@@ -118,6 +122,11 @@ pub fn run(ctx: &Ctx, out: &mut Out, prop: &str) {
                 _ => rng.range(1, 40),
             } as usize;
             let sends = gen_sequence(&mut rng, &srv, len);
+            if stats_server && !c20 {
+                // let a status-timer tick fall between the bursts
+                std::thread::sleep(std::time::Duration::from_millis(110));
+                out.obs("timer_ticks_awaited_between_sequences", 1);
+            }
             rounds.push(sends.clone());
             // with fault injection off every valid request of the sequence must be answered too,
             // not only the sentinel after it
@@ -198,6 +207,11 @@ pub fn run(ctx: &Ctx, out: &mut Out, prop: &str) {
     }
     if c20 {
         real_server_outputs(ctx, out, &mut rng);
+    }
+    if !c20 && ctx.shard % 4 == 0 {
+        for _ in 0..(if ctx.thorough { 6 } else { 2 }) {
+            accept_fault_scenario(out, &mut rng);
+        }
     }
     let after = log_counts();
     for (i, name) in ["", "error", "warn", "info", "debug", "trace"].iter().enumerate() {
@@ -329,6 +343,91 @@ fn real_server_outputs(ctx: &Ctx, out: &mut Out, rng: &mut Rng) {
         out.case(fnv64(&seed) ^ 0x20, true);
         if !ctx.time_left() {
             break;
+        }
+    }
+}
+
+
+/// Fault injection beyond datagrams: a health-check connection arrives while the process has no
+/// file descriptor left, so accept() keeps failing (EMFILE). The worker must come back from
+/// process_events and keep answering time requests.
+fn accept_fault_scenario(out: &mut Out, rng: &mut Rng) {
+    use std::os::unix::io::FromRawFd;
+    let mut cfg = HConfig::new(&rng.bytes(32));
+    let hp = crate::procs::free_port(true);
+    cfg.health_check_port = Some(hp);
+    let Ok(mut d) = Driver::new(cfg.clone(), 2) else {
+        out.inconclusive("server start failed");
+        return;
+    };
+    let srv = d.srv_value.clone();
+    // warm-up: one ordinary round and one ordinary health connection
+    let r = d.round(vec![(0, valid_classic(rng).data)], true);
+    if r.panic.is_some() {
+        return;
+    }
+    // the client's TCP socket is created first; then every remaining descriptor is used up
+    let tcp = unsafe { libc::socket(libc::AF_INET, libc::SOCK_STREAM | libc::SOCK_NONBLOCK, 0) };
+    if tcp < 0 {
+        out.inconclusive("socket() failed");
+        return;
+    }
+    // keep the exhaustion cheap: lower the soft descriptor limit for the duration
+    let mut old = libc::rlimit { rlim_cur: 0, rlim_max: 0 };
+    unsafe {
+        libc::getrlimit(libc::RLIMIT_NOFILE, &mut old);
+        let low = libc::rlimit { rlim_cur: 512.min(old.rlim_max), rlim_max: old.rlim_max };
+        libc::setrlimit(libc::RLIMIT_NOFILE, &low);
+    }
+    let mut hogs: Vec<std::fs::File> = Vec::new();
+    loop {
+        match std::fs::File::open("/dev/null") {
+            Ok(f) => hogs.push(f),
+            Err(_) => break,
+        }
+        if hogs.len() > 200_000 {
+            break;
+        }
+    }
+    let sa = libc::sockaddr_in { sin_family: libc::AF_INET as u16, sin_port: hp.to_be(), sin_addr: libc::in_addr { s_addr: u32::from_ne_bytes([127, 0, 0, 1]) }, sin_zero: [0; 8] };
+    unsafe {
+        libc::connect(tcp, &sa as *const libc::sockaddr_in as *const libc::sockaddr, std::mem::size_of::<libc::sockaddr_in>() as u32);
+    }
+    std::thread::sleep(std::time::Duration::from_millis(20));
+    // a valid request is already queued as well
+    let dg = valid_ietf(rng, Some(&srv)).data;
+    let _ = d.socks[0].send_to(&dg, d.srv.addr);
+    let exhausted = std::fs::File::open("/dev/null").is_err();
+    let stepped = d.srv.step(2);
+    drop(hogs);
+    unsafe {
+        libc::setrlimit(libc::RLIMIT_NOFILE, &old);
+    }
+    if !exhausted {
+        out.inconclusive("could not exhaust file descriptors");
+        return;
+    }
+    let _tcp = unsafe { std::net::TcpStream::from_raw_fd(tcp) };
+    out.obs("accept_fault_scenarios", 1);
+    out.case(crate::prng::fnv64(&cfg.seed) ^ 0xacce, true);
+    let rp = || json!({"kind":"accept-fault","what":"health-check connection pending while the process is out of file descriptors"});
+    match stepped {
+        Err(p) => {
+            let wedged = p.starts_with("WEDGED");
+            out.violation(
+                &format!("C08 server {} during-accept-fault {}", if wedged { "wedged" } else { "panic" }, if wedged { String::new() } else { crate::c05::panic_site(&p) }),
+                &format!("with accept() failing persistently (no file descriptors) process_events {}: {}", if wedged { "did not return within 60 s" } else { "unwound" }, p),
+                rp(),
+            );
+        }
+        Ok(()) => {
+            // and afterwards it serves as before
+            let r = d.round(vec![(1, valid_classic(rng).data)], true);
+            if r.panic.is_some() || !r.sentinel_verified {
+                out.violation("C08 server not-serving-after-accept-fault", "after the descriptors were released a valid request was not answered correctly", rp());
+            } else {
+                out.obs("accept_fault_survived", 1);
+            }
         }
     }
 }
